@@ -19,6 +19,7 @@ mod c09;
 mod c10;
 mod common;
 mod dbg;
+mod c11;
 mod c12;
 mod c13;
 mod c14;
@@ -88,6 +89,7 @@ fn main() {
         "C06" => c06::run(&mut ctx),
         "C04" => c04::run(&mut ctx),
         "C10" => c10::run(&mut ctx),
+        "C11" => c11::run(&mut ctx),
         "C12" => c12::run(&mut ctx),
         "C13" => c13::run(&mut ctx),
         "C14" => c14::run(&mut ctx),
